@@ -910,8 +910,39 @@ def r_guard(E):
         res.findings.append(Finding("R-GUARD", "System.check_no_object… cases",
                                     "the one-system check must raise both for an object linked to another system and "
                                     "for an object linked to two systems", rel, ck.lineno, ck.name))
-    res.samples = [{"self_delete_guard_line": guard.lineno if guard else None, "first_detach_line": first_detach}]
-    res.floor = 4
+    # the one-system check is on the edit path: reachable (by name-resolved calls) from ModelingUpdate.__init__
+    res.instances += 1
+    defs = {}
+    for mod, (r2, tree, src) in pm.modules.items():
+        for n in ast.walk(tree):
+            if isinstance(n, ast.FunctionDef):
+                defs.setdefault(n.name, []).append(n)
+    rel5, start = pm.find_function(MU, "ModelingUpdate.__init__")
+    seen, todo = set(), [start]
+    while todo:
+        f = todo.pop()
+        if id(f) in seen:
+            continue
+        seen.add(id(f))
+        for c in ast.walk(f):
+            nm = None
+            if isinstance(c, ast.Call):
+                nm = c.func.attr if isinstance(c.func, ast.Attribute) else (c.func.id if isinstance(c.func, ast.Name) else None)
+            elif isinstance(c, ast.Attribute):
+                nm = c.attr          # properties
+            if nm and nm in defs and nm not in ("__init__", "to_json", "explain", "plot"):
+                todo += defs[nm]
+    on_path = any(id(f) in seen for f in defs.get("check_no_object_to_link_is_already_linked_to_another_system", []))
+    if not on_path:
+        res.findings.append(Finding(
+            "R-GUARD", "one-system check not on the edit path",
+            "check_no_object_to_link_is_already_linked_to_another_system is only called when a System is built or "
+            "explicitly recomputed; nothing reachable from ModelingUpdate calls it, so a link edit "
+            "(`journey_of_A.uj_steps.append(step_of_B)`, `system_A.usage_patterns.append(pattern_of_B)`) puts objects in "
+            "two systems", rel5, start.lineno, "ModelingUpdate.__init__"))
+    res.samples = [{"self_delete_guard_line": guard.lineno if guard else None, "first_detach_line": first_detach,
+                    "functions_reachable_from_ModelingUpdate": len(seen)}]
+    res.floor = 5
     return res
 
 
